@@ -10,6 +10,11 @@ Part 3: `ErrorFunction` — independence of batching, thread count and merge ord
 import SharkVerif.Lemmas.Loss
 import SharkVerif.Lemmas.LossDeriv
 import SharkVerif.Gen.ParRegions
+import SharkVerif.Lemmas.ErrFn
+import SharkVerif.Lemmas.ErrFn2
+import SharkVerif.Lemmas.LossCurve1
+import SharkVerif.Lemmas.LossCurve2
+import SharkVerif.Lemmas.LossSecond
 namespace SharkVerif.C06
 open SharkVerif.Loss Scalar
 
@@ -588,6 +593,162 @@ theorem weighted_const_eq_unweighted (el : Nat → Nat → Rat) (sizes : List Na
 /-- **regularizers add exactly their stated term** -/
 theorem regularizer_adds_term (value strength reg : Rat) :
     regularizedEval value strength reg = value + strength * reg := rfl
+
+/-! ## 4. end to end: `ErrorFunction::evalDerivative` over a `ConcatenatedModel` (the Chain model of C04)
+
+The evaluation loop is `ErrFn.evalDerivative` (Model/ErrFn.lean: per-thread ranges regenerated from the C++,
+partial results merged in an arbitrary thread order, division by the number of elements); the model is any
+chain `pre ++ dense m :: post` of C04 with its derivative theorem imported (`Chain.weight_derivative_correct`
+through `chain_weight_contract`), the loss any loss with the total-derivative contract `BatchGradAt`
+(`Lemmas/LossCurve1.lean`, `Lemmas/LossCurve2.lean`: every differentiable loss class of Shark). -/
+section EndToEnd
+open SharkVerif.ErrFn SharkVerif.Models Finset
+
+/-- "the call returns the mean loss and the entry of the returned vector that belongs to the weight
+`W[k0][j0]` of the dense layer `m` is the derivative of the mean loss w.r.t. that weight" -/
+def EvalDerivativeCorrect {L : Type} (pre post : Chain ℝ) (m : Dense ℝ) (nIn k0 j0 : ℕ)
+    (loss : LossFn ℝ L) (batches : ℕ → Batch ℝ L) (B threads : ℕ) (order : List ℕ) : Prop :=
+  (ErrFn.evalDerivative (ofChain Real.tanh Real.exp (pre ++ (Layer.dense m, true) :: post)
+      (Chain.nOut (pre ++ (Layer.dense m, true) :: post) nIn)) loss batches B threads order).1
+    = (∑ b ∈ range B, loss.eval (batches b).labels
+        (predictions (ofChain Real.tanh Real.exp (pre ++ (Layer.dense m, true) :: post)
+          (Chain.nOut (pre ++ (Layer.dense m, true) :: post) nIn)) (batches b)))
+        / (numElements batches B : ℝ) ∧
+  HasDerivAt
+    (fun t => (∑ b ∈ range B, loss.eval (batches b).labels
+        (predictions (chainFamilyW pre post m nIn k0 j0 t) (batches b))) / (numElements batches B : ℝ))
+    ((ErrFn.evalDerivative (ofChain Real.tanh Real.exp (pre ++ (Layer.dense m, true) :: post)
+      (Chain.nOut (pre ++ (Layer.dense m, true) :: post) nIn)) loss batches B threads order).2.getD
+      ((Chain.params pre).length + (k0 * m.nIn + j0)) 0) (m.W k0 j0)
+
+/-- the labels of every batch fit the batch: one label per row -/
+def LabelsFit {L : Type} (batches : ℕ → Batch ℝ L) (B : ℕ) : Prop :=
+  ∀ b, b < B → (batches b).labels.length = (batches b).n
+
+/-- **generic form**: every chain of C04, every loss satisfying the loss contract, every data set, every batch
+partition (`batches`, `B`), every thread count and every merge order -/
+theorem errorFunction_evalDerivative_end_to_end {L : Type} (pre post : Chain ℝ) (m : Dense ℝ) (nIn k0 j0 : ℕ)
+    (hk0 : k0 < m.nOut) (hj0 : j0 < m.nIn)
+    (hwf : Chain.WF (pre ++ (Layer.dense m, true) :: post) nIn)
+    (loss : LossFn ℝ L) (batches : ℕ → Batch ℝ L) (B threads : ℕ) (hB : 1 ≤ B) (hthreads : 1 ≤ threads)
+    (order : List ℕ) (hperm : order.Perm (List.range (min threads B)))
+    (hnk : ∀ b, b < B → Chain.NoKink (batches b).n (pre ++ (Layer.dense m, true) :: post) (batches b).X)
+    (hloss : ∀ b, b < B → BatchGradAt (batches b).n (Chain.nOut (pre ++ (Layer.dense m, true) :: post) nIn)
+      (loss.eval (batches b).labels)
+      (loss.evalDerivative (batches b).labels
+        (toRows (batches b).n (Chain.nOut (pre ++ (Layer.dense m, true) :: post) nIn)
+          (Chain.evalB Real.tanh Real.exp (pre ++ (Layer.dense m, true) :: post) (batches b).X))).2
+      (Chain.evalB Real.tanh Real.exp (pre ++ (Layer.dense m, true) :: post) (batches b).X))
+    (hval : ∀ (l : List L) (p : List (List ℝ)), (loss.evalDerivative l p).1 = loss.eval l p) :
+    EvalDerivativeCorrect pre post m nIn k0 j0 loss batches B threads order :=
+  errorFunction_chain_weight_correct pre post m nIn k0 j0 hk0 hj0 hwf loss batches B threads hB hthreads order hperm
+    hnk hloss (fun b _ => hval _ _)
+
+/-- **SquaredLoss** (no kink of the loss; the model's kinks are C04's `NoKink`) -/
+theorem errorFunction_squared_end_to_end (pre post : Chain ℝ) (m : Dense ℝ) (nIn k0 j0 : ℕ)
+    (hk0 : k0 < m.nOut) (hj0 : j0 < m.nIn)
+    (hwf : Chain.WF (pre ++ (Layer.dense m, true) :: post) nIn)
+    (batches : ℕ → Batch ℝ (List ℝ)) (B threads : ℕ) (hB : 1 ≤ B) (hthreads : 1 ≤ threads)
+    (order : List ℕ) (hperm : order.Perm (List.range (min threads B)))
+    (hnk : ∀ b, b < B → Chain.NoKink (batches b).n (pre ++ (Layer.dense m, true) :: post) (batches b).X)
+    (hfit : LabelsFit batches B)
+    (hdim : ∀ b, b < B → ∀ l ∈ (batches b).labels, l.length = Chain.nOut (pre ++ (Layer.dense m, true) :: post) nIn) :
+    EvalDerivativeCorrect pre post m nIn k0 j0 squaredLoss batches B threads order :=
+  errorFunction_evalDerivative_end_to_end pre post m nIn k0 j0 hk0 hj0 hwf squaredLoss batches B threads hB hthreads
+    order hperm hnk (fun b hb => squared_batchGradAt _ _ _ _ (hfit b hb) (hdim b hb)) (fun _ _ => rfl)
+
+/-- **CrossEntropy, several outputs** (class labels; no kink of the loss) -/
+theorem errorFunction_crossEntropy_end_to_end (pre post : Chain ℝ) (m : Dense ℝ) (nIn k0 j0 : ℕ)
+    (hk0 : k0 < m.nOut) (hj0 : j0 < m.nIn)
+    (hwf : Chain.WF (pre ++ (Layer.dense m, true) :: post) nIn)
+    (hm : 2 ≤ Chain.nOut (pre ++ (Layer.dense m, true) :: post) nIn)
+    (batches : ℕ → Batch ℝ ℕ) (B threads : ℕ) (hB : 1 ≤ B) (hthreads : 1 ≤ threads)
+    (order : List ℕ) (hperm : order.Perm (List.range (min threads B)))
+    (hnk : ∀ b, b < B → Chain.NoKink (batches b).n (pre ++ (Layer.dense m, true) :: post) (batches b).X)
+    (hfit : LabelsFit batches B) :
+    EvalDerivativeCorrect pre post m nIn k0 j0 (crossEntropyLoss Real.exp Real.log) batches B threads order :=
+  errorFunction_evalDerivative_end_to_end pre post m nIn k0 j0 hk0 hj0 hwf _ batches B threads hB hthreads
+    order hperm hnk (fun b hb => crossEntropy_multi_batchGradAt _ _ _ _ (hfit b hb) hm)
+    (fun l p => by
+      show (ceEvalDerivative Real.exp Real.log l p).1 = ceEval Real.exp Real.log l p
+      unfold ceEvalDerivative ceEval
+      simp only
+      rw [sumL_eq_sum_real, sumL_eq_sum_real]
+      congr 1
+      induction l generalizing p with
+      | nil => simp
+      | cons c cs ih =>
+        cases p with
+        | nil => simp
+        | cons q qs =>
+          simp only [List.zipWith_cons_cons, List.map_cons, ih qs]
+          congr 1
+          unfold ceRowEvalDerivative ceRowEval
+          split
+          · rfl
+          · simp only; ring)
+
+/-- **HingeLoss, one output column, labels {0,1}**: away from the kinks `1 − y·f(x) = 0` -/
+theorem errorFunction_hinge_binary_end_to_end (pre post : Chain ℝ) (m : Dense ℝ) (nIn k0 j0 : ℕ)
+    (hk0 : k0 < m.nOut) (hj0 : j0 < m.nIn)
+    (hwf : Chain.WF (pre ++ (Layer.dense m, true) :: post) nIn)
+    (hm : Chain.nOut (pre ++ (Layer.dense m, true) :: post) nIn = 1)
+    (batches : ℕ → Batch ℝ ℕ) (B threads : ℕ) (hB : 1 ≤ B) (hthreads : 1 ≤ threads)
+    (order : List ℕ) (hperm : order.Perm (List.range (min threads B)))
+    (hnk : ∀ b, b < B → Chain.NoKink (batches b).n (pre ++ (Layer.dense m, true) :: post) (batches b).X)
+    (hfit : LabelsFit batches B)
+    (hkink : ∀ b, b < B → ∀ i, i < (batches b).n →
+      1 - (2 * (((batches b).labels.getD i 0 : ℕ) : ℝ) - 1)
+        * Chain.evalB Real.tanh Real.exp (pre ++ (Layer.dense m, true) :: post) (batches b).X i 0 ≠ 0) :
+    EvalDerivativeCorrect pre post m nIn k0 j0 hingeLoss batches B threads order :=
+  errorFunction_evalDerivative_end_to_end pre post m nIn k0 j0 hk0 hj0 hwf hingeLoss batches B threads hB hthreads
+    order hperm hnk (fun b hb => by rw [hm]; exact hinge_binary_batchGradAt _ _ _ (hfit b hb) (hkink b hb))
+    (fun l p => by
+      show (hingeEvalDerivative l p).1 = hingeEval l p
+      unfold hingeEvalDerivative hingeEval
+      cases p with
+      | nil => rfl
+      | cons q qs => simp only; split <;> rfl)
+
+/-- **independent of the batch partition**: two partitions of the same data set (any thread counts, any merge
+orders) give the same error, for every chain and every row-wise loss -/
+theorem errorFunction_partition_independent {L : Type} (c : Chain ℝ) (mOut : ℕ) (loss : LossFn ℝ L)
+    (elem : L → List ℝ → ℝ) (hl : Rowwise loss elem) (Xall : ℕ → ℕ → ℝ) (lab : List L)
+    (sizes1 sizes2 : List ℕ) (hsum1 : sizes1.sum = lab.length) (hsum2 : sizes2.sum = lab.length)
+    (hB1 : 1 ≤ sizes1.length) (hB2 : 1 ≤ sizes2.length) (threads1 threads2 : ℕ)
+    (ht1 : 1 ≤ threads1) (ht2 : 1 ≤ threads2) (order1 order2 : List ℕ)
+    (hp1 : order1.Perm (List.range (min threads1 sizes1.length)))
+    (hp2 : order2.Perm (List.range (min threads2 sizes2.length))) :
+    ErrFn.eval (ofChain Real.tanh Real.exp c mOut) loss (partBatches Xall lab sizes1) sizes1.length threads1 order1
+      = ErrFn.eval (ofChain Real.tanh Real.exp c mOut) loss (partBatches Xall lab sizes2) sizes2.length threads2 order2 :=
+  eval_partition_independent _ loss elem Xall lab (rowLocal_ofChain c mOut) hl sizes1 sizes2 hsum1 hsum2 hB1 hB2
+    threads1 threads2 ht1 ht2 order1 order2 hp1 hp2
+
+/-! non-vacuity: the four-layer `chainDemo` of C04 (tanh dense layer, logistic neurons, linear dense layer,
+softmax; two outputs), every data set whose batches carry one label per row, every partition / thread
+count / merge order — all hypotheses of the end-to-end theorems are satisfiable -/
+example (batches : ℕ → Batch ℝ (List ℝ)) (B threads : ℕ) (hB : 1 ≤ B) (hthreads : 1 ≤ threads)
+    (order : List ℕ) (hperm : order.Perm (List.range (min threads B))) (hfit : LabelsFit batches B)
+    (hdim : ∀ b, b < B → ∀ l ∈ (batches b).labels, l.length = 2) :
+    EvalDerivativeCorrect chainDemoPre chainDemoPost chainDemoMid 2 1 2 squaredLoss batches B threads order :=
+  errorFunction_squared_end_to_end chainDemoPre chainDemoPost chainDemoMid 2 1 2
+    (by simp [chainDemoMid]) (by simp [chainDemoMid]) ⟨rfl, rfl, rfl, rfl, trivial⟩
+    batches B threads hB hthreads order hperm
+    (fun b _ => by simp [chainDemoPre, chainDemoMid, chainDemoPost, Chain.NoKink, Layer.NoKink])
+    hfit hdim
+example (batches : ℕ → Batch ℝ ℕ) (B threads : ℕ) (hB : 1 ≤ B) (hthreads : 1 ≤ threads)
+    (order : List ℕ) (hperm : order.Perm (List.range (min threads B))) (hfit : LabelsFit batches B) :
+    EvalDerivativeCorrect chainDemoPre chainDemoPost chainDemoMid 2 1 2 (crossEntropyLoss Real.exp Real.log)
+      batches B threads order :=
+  errorFunction_crossEntropy_end_to_end chainDemoPre chainDemoPost chainDemoMid 2 1 2
+    (by simp [chainDemoMid]) (by simp [chainDemoMid]) ⟨rfl, rfl, rfl, rfl, trivial⟩ (le_refl 2)
+    batches B threads hB hthreads order hperm
+    (fun b _ => by simp [chainDemoPre, chainDemoMid, chainDemoPost, Chain.NoKink, Layer.NoKink])
+    hfit
+example : LabelsFit (fun _ => ({ n := 2, X := fun _ _ => 0, labels := [0, 1] } : Batch ℝ ℕ)) 3 := fun _ _ => rfl
+example : [2, 0, 1].Perm (List.range (min 7 3)) := by decide
+
+end EndToEnd
 
 /-! ### non-vacuity -/
 example : squaredEval [[1, 2], [3, 4]] [[(1:Rat)/2, 0], [3, 5]] = 21 / 8 := by
